@@ -35,11 +35,11 @@ import (
 )
 
 type ccEvent struct {
-	Seq int64  `json:"seq"`
-	G   int    `json:"g"`
-	Ev  string `json:"ev"` // inv | lin | resp
-	Op  string `json:"op"`
-	Key string `json:"key"`
+	Seq int64    `json:"seq"`
+	G   int      `json:"g"`
+	Ev  string   `json:"ev"` // inv | lin | resp
+	Op  string   `json:"op"`
+	Key string   `json:"key"`
 	Res string   `json:"res"`
 	Run int      `json:"run"`
 	Set []string `json:"set"`
@@ -106,6 +106,7 @@ type ccStore interface {
 	Has(c cid.Cid) (bool, error)
 	Get(c cid.Cid) ([]byte, error, bool)
 	Keys() ([]cid.Cid, error, bool)
+	Roots() ([]cid.Cid, error, bool)
 	Finalize() error
 	Bytes() []byte
 }
@@ -136,7 +137,11 @@ func (s *ccRW) Keys() ([]cid.Cid, error, bool) {
 	return out, nil, true
 }
 func (s *ccRW) Finalize() error { return s.bs.Finalize() }
-func (s *ccRW) Bytes() []byte   { b, _ := os.ReadFile(s.path); return b }
+func (s *ccRW) Roots() ([]cid.Cid, error, bool) {
+	r, err := s.bs.Roots()
+	return r, err, true
+}
+func (s *ccRW) Bytes() []byte { b, _ := os.ReadFile(s.path); return b }
 
 type ccSC struct {
 	sc  *storage.StorageCar
@@ -149,9 +154,14 @@ func (s *ccSC) Get(c cid.Cid) ([]byte, error, bool) {
 	d, err := s.sc.Get(bg, c.KeyString())
 	return d, err, true
 }
-func (s *ccSC) Keys() ([]cid.Cid, error, bool) { return nil, nil, false }
-func (s *ccSC) Finalize() error                { return s.sc.Finalize() }
-func (s *ccSC) Bytes() []byte                  { s.mem.mu.Lock(); defer s.mem.mu.Unlock(); return append([]byte{}, s.mem.data...) }
+func (s *ccSC) Keys() ([]cid.Cid, error, bool)  { return nil, nil, false }
+func (s *ccSC) Finalize() error                 { return s.sc.Finalize() }
+func (s *ccSC) Roots() ([]cid.Cid, error, bool) { return s.sc.Roots(), nil, true }
+func (s *ccSC) Bytes() []byte {
+	s.mem.mu.Lock()
+	defer s.mem.mu.Unlock()
+	return append([]byte{}, s.mem.data...)
+}
 
 type ccDF struct {
 	d   *deferred.DeferredCarWriter
@@ -197,14 +207,23 @@ type lockedBuf struct {
 	b  bytes.Buffer
 }
 
-func (l *lockedBuf) Write(p []byte) (int, error) { l.mu.Lock(); defer l.mu.Unlock(); return l.b.Write(p) }
+func (l *lockedBuf) Write(p []byte) (int, error) {
+	l.mu.Lock()
+	defer l.mu.Unlock()
+	return l.b.Write(p)
+}
 
 func (s *ccDF) Put(b blocks.Block) error            { return s.d.Put(bg, b.Cid().KeyString(), b.RawData()) }
 func (s *ccDF) Has(c cid.Cid) (bool, error)         { return s.d.Has(bg, c.KeyString()) }
 func (s *ccDF) Get(c cid.Cid) ([]byte, error, bool) { return nil, nil, false }
 func (s *ccDF) Keys() ([]cid.Cid, error, bool)      { return nil, nil, false }
 func (s *ccDF) Finalize() error                     { return s.d.Close() }
-func (s *ccDF) Bytes() []byte                       { s.buf.mu.Lock(); defer s.buf.mu.Unlock(); return append([]byte{}, s.buf.b.Bytes()...) }
+func (s *ccDF) Roots() ([]cid.Cid, error, bool)     { return nil, nil, false }
+func (s *ccDF) Bytes() []byte {
+	s.buf.mu.Lock()
+	defer s.buf.mu.Unlock()
+	return append([]byte{}, s.buf.b.Bytes()...)
+}
 
 func newCCStore(kind, dir string) (ccStore, error) {
 	roots := []cid.Cid{ccBlock(0).Cid()}
@@ -331,6 +350,18 @@ func execOp(rec *ccRecorder, st ccStore, g int, run int, op ccOp) {
 			res = "err"
 		} else {
 			res = fmt.Sprint(h)
+		}
+	case "roots":
+		rs, err, ok := st.Roots()
+		switch {
+		case !ok:
+			res = "skip"
+		case err != nil:
+			res = "err"
+		case len(rs) == 1 && rs[0].Equals(ccBlock(0).Cid()):
+			res = "roots"
+		default:
+			res = fmt.Sprintf("wrong-roots:%v", rs)
 		}
 	case "get":
 		d, err, ok := st.Get(b.Cid())
@@ -488,7 +519,7 @@ func runConcStress(args []string) int {
 			for g := range progs {
 				n := 3 + rng.Intn(10)
 				for i := 0; i < n; i++ {
-					ops := []string{"put", "put", "has", "get", "keys"}
+					ops := []string{"put", "put", "has", "get", "keys", "roots"}
 					progs[g] = append(progs[g], ccOp{ops[rng.Intn(len(ops))], 1 + rng.Intn(nkeys)})
 				}
 				if g == finalizer {
